@@ -704,13 +704,15 @@ func main() {
 				"kill_points_unreached":          m.Counters["kill_points_unreached"],
 				"kill_runs_diverged_and_retried": m.Counters["kill_runs_diverged_retried"],
 				"scenarios":                      m.Counters["scenarios"],
+				"failing_save_scenarios":         m.Counters["failing_save_scenarios"],
 				"recorded_window_calls":          m.Counters["recorded_window_calls"],
 				"distinct_nontrivial":            m.Distinct["nontrivial"],
 				"distinct_kill_outcomes":         m.Distinct["outcomes"],
 				"distinct_powerloss_classes":     m.Distinct["powerloss_classes"],
 				"distinct_file_sizes":            m.Distinct["file_sizes"],
 				"max_file_bytes":                 m.Maxes["max_file_bytes"],
-				"rule": "3 writers (home.configuration.write, dhcpd onNotify->dbStore->writeDB, filtering tryRefreshFilters->updateIntl->finalizeUpdate) x wanted sizes " +
+				"rule": "3 writers (home.configuration.write, dhcpd onNotify->dbStore->writeDB, filtering tryRefreshFilters->updateIntl->finalizeUpdate) plus the loader's schema-upgrade rewrite, " +
+					"a refresh / a set_url whose download breaks half-way, set_url that succeeds, and for each of the 3 writers at 4096 B and 1 MiB a save 1 during which no file may grow beyond half / all but one byte of its size (RLIMIT_FSIZE; the save fails and must leave the previous version), x wanted sizes " +
 					"{0,1,4095,4096,4097,1 MiB}(+32 MiB thorough; the writer's minimum where smaller sizes cannot exist: configuration 3519 B, lease database 141 B = one lease, filter list 0 B only as the middle version and 2 B instead of 1 B) x destination {present, absent} before x temporary-file placement " +
 					"{next to destination, other directory}; per scenario two successive saves; (a) one real SIGKILL on entry to every file-system call touching the working directory between " +
 					"the markers (every call of the kill set), destination then read back; (b) every power-loss state of the recorded log: prefix x namespace operations lost (any suffix not " +
